@@ -22,7 +22,7 @@ RULE = (
     "predecessor outputs alive, widening reductions over a short axis; every template is also visited in every run by sweep shards), "
     "a chunk geometry (square, skinny with 8/4/2-wide chunks, wide, uneven last chunk; chunk memory 2-8 MB for every dtype), an input dtype (float64, float32, int64, int8, bool, complex128 where the operation "
     "allows), a compressor (none / default), a data class (compressible / incompressible) and an optimizer mode (off / default / "
-    "fuse-all). Inputs are Zarr arrays written beforehand to a local directory so reads allocate like real reads. The plan is run by "
+    "fuse-all; the legacy pairwise optimizer for the narrowing chain). Inputs are Zarr arrays written beforehand to a local directory so reads allocate like real reads. The plan is run by "
     "a sequential executor that measures, for EVERY task of EVERY operation, the tracemalloc peak relative to the level before the "
     "task (all threads, NumPy buffers, bytes read from the store, codec buffers). Oracle: peak <= primitive_op.projected_mem + 0.7 MB "
     "(reserved_mem is 0, so projected_mem is the pure array-data model; 0.7 MB covers measured non-data noise of 40-80 kB per task "
@@ -136,6 +136,9 @@ def _T():
         "sum-widen-short": (1, ("int8", "bool", "float32"), lambda a: xp.sum(a, axis=-1, dtype=xp.int64 if np.dtype(a.dtype).kind in "ib" else xp.float64), {"geoms": ("skinny", "skinny4", "skinny2")}),
         "mean-widen-short": (1, ("float32", "int8"), lambda a: xp.mean(a, axis=-1) if np.dtype(a.dtype).kind == "f" else xp.mean(xp.astype(a, xp.float32), axis=-1), {"geoms": ("skinny", "skinny4", "skinny2")}),
         "prod-widen-short": (1, ("int8",), lambda a: xp.prod(a, axis=-1), {"geoms": ("skinny", "skinny4", "skinny2")}),
+        # a two-step chain whose first step needs more memory than its second (narrowing): also planned with the legacy pairwise
+        # optimizer (simple_optimize_dag), whose fused projection is max(op1, op2)
+        "narrowing-chain": (1, ("float64", "int64"), lambda a: xp.negative(xp.astype(a, xp.int8))),
         "max-short": (1, REAL, lambda a: xp.max(a, axis=-1), {"geoms": ("skinny", "skinny4", "skinny2")}),
     }
     return T
@@ -230,6 +233,8 @@ def case_strategy(include_known=False, only=None):
             "data": draw(st.sampled_from(["compressible", "incompressible"])),
             "optimize": draw(st.sampled_from(["off", "default", "default", "fuse-all"])),
         }
+        if t == "narrowing-chain":
+            case["optimize"] = draw(st.sampled_from(["legacy", "legacy", "default", "off"]))
         if not include_known:
             # move the case out of recorded known-finding regions by construction (counted as excluded)
             moved = 0
@@ -365,6 +370,10 @@ def measure(case, compressor=None, optimize=None):
                 from cubed.core.optimization import fuse_all_optimize_dag
 
                 kwc["optimize_function"] = fuse_all_optimize_dag
+            if optm == "legacy":
+                from cubed.core.optimization import simple_optimize_dag
+
+                kwc["optimize_function"] = simple_optimize_dag
             ex = MemExec()
             cubed.compute(*res, executor=ex, _return_in_memory_array=False, **kwc)
         out["rows"] = ex.rows
